@@ -810,7 +810,8 @@ impl TypeLayout {
 
     /// Is this a map, or a list / optional with a map inside? (Such a value cannot be hashed.)
     pub fn contains_map(&self) -> bool {
-        match self.get_type_recursively() {
+        // an alias of a map (`type M map[str, int]`) is a map: look through aliases too
+        match self.disregard_distractors(false) {
             TypeLayout::Map(..) => true,
             TypeLayout::Optional(Some(inner)) => inner.contains_map(),
             TypeLayout::List(ListType::Open(inner)) => inner.contains_map(),
